@@ -188,11 +188,10 @@ impl RtpsStatefulWriter {
             {
                 reader_proxy.set_last_received_nack_frag_count(nackfrag_submessage.count());
                 let change_seq_num = nackfrag_submessage.writer_sn();
-                if let Some(cache_change) = self
-                    .changes
-                    .iter()
-                    .find(|cc| cc.sequence_number == change_seq_num)
-                {
+                if let Some(cache_change) = self.changes.iter().find(|cc| {
+                    cc.sequence_number == change_seq_num
+                        && change_seq_num > reader_proxy.first_relevant_sample_seq_num()
+                }) {
                     let number_of_fragments = cache_change
                         .data_value
                         .len()
@@ -346,10 +345,10 @@ impl RtpsReaderProxy {
                 message_writer.write_message(rtps_message.buffer(), self.unicast_locator_list());
 
                 self.set_highest_sent_seq_num(next_unsent_change_seq_num);
-            } else if let Some(cache_change) = changes
-                .iter()
-                .find(|cc| cc.sequence_number == next_unsent_change_seq_num)
-            {
+            } else if let Some(cache_change) = changes.iter().find(|cc| {
+                cc.sequence_number == next_unsent_change_seq_num
+                    && next_unsent_change_seq_num > self.first_relevant_sample_seq_num()
+            }) {
                 let number_of_fragments = cache_change
                     .data_value
                     .len()
